@@ -137,7 +137,7 @@ pub fn float_kind() -> impl Strategy<Value = Kind> {
 
 /// float histories on supported configs; image size is a multiple of the subsampling factors
 pub fn float_strategy() -> BoxedStrategy<FloatCase> {
-    (supported_cfg(), float_kind(), 1usize..=4, 1usize..=3, 0u8..7, any::<u64>(), prop::collection::vec(any::<u8>(), 1..=4))
+    (supported_cfg(), float_kind(), 1usize..=4, 1usize..=3, 0u8..7, any::<u64>(), prop::collection::vec(any::<u8>(), 1..=6))
         .prop_map(|(cfg, kind, bw, bh, stratum, seed, ops)| {
             // now and then a real-size image: rows wider than 2^15 / 2^16, pixel counts above 2^16
             let (bw, bh) = match seed % 400 {
@@ -177,8 +177,25 @@ pub fn run_history(start: Img, cfgp: &YuvConfig, ops: &[u8]) -> HistoryReport {
     // the current image is handed to the library as the very object it produced / we built (its
     // allocation, spare capacity and hidden state included); `images` keeps copies for the oracles
     let mut cur = Some(start);
-    for op in ops {
-        let c = cur.take().unwrap();
+    for (step, op) in ops.iter().enumerate() {
+        let mut c = cur.take().unwrap();
+        if *op >= 216 && step > 0 {
+            // paint: overwrite the current float image through data_mut() with special-laden data and go on;
+            // whatever the object remembers about how it was produced must not matter
+            let n = c.dims().0 * c.dims().1;
+            let data = expand_floats((*op % 6) as u8, 0xFA17 ^ ((*op as u64) << 8) ^ step as u64, n);
+            let painted = match &mut c {
+                Img::Rgb(r) => { r.data_mut().copy_from_slice(&data); true }
+                Img::Lin(r) => { r.data_mut().copy_from_slice(&data); true }
+                Img::Xyb(r) => { r.data_mut().copy_from_slice(&data); true }
+                Img::Hsl(r) => { r.data_mut().copy_from_slice(&data); true }
+                _ => false,
+            };
+            if painted {
+                cur = Some(c);
+                continue;
+            }
+        }
         let edges = edges_from(c.kind());
         let e = edges[*op as usize % edges.len()];
         let p = Params { cfg: *cfgp };
